@@ -6,7 +6,7 @@ PH0 = 0xE000  # private-use placeholders, one per nonterminal, for match-express
 
 
 class FGen:
-    def __init__(self, g, rng, m=None, preds=None, allow_numeric=True, smt_rich=True):
+    def __init__(self, g, rng, m=None, preds=None, allow_numeric=True, smt_rich=True, smt_bool=False):
         self.g, self.rng = g, rng
         self.m = m or G(g)
         self.cg, self.reach = self.m.cg, self.m.reach()
@@ -16,6 +16,7 @@ class FGen:
         self.preds = preds or ["before", "after", "inside", "direct_child", "same_position", "different_position", "nth", "level", "consecutive"]
         self.allow_numeric = allow_numeric
         self.smt_rich = smt_rich
+        self.smt_bool = smt_bool  # Boolean connectives *inside* one SMT atom (off by default: other checks keep their PRNG streams)
         self.numeral_nts = [a for a in self.cg if self._numeral(a)]
         self._phg = None
 
@@ -123,6 +124,8 @@ class FGen:
             return ("smt", f"(= {v} {w})", sorted({v, w}))
         if r < 0.4:
             return ("smt", f"({rng.choice(['>', '<', '=', '>=', '<='])} (str.len {v}) {rng.randint(0, 4)})", [v])
+        if self.smt_bool and 0.4 <= r < 0.47:
+            return self.bool_smt(scope)
         if r < 0.5 and self.smt_rich:
             return self.rich_smt(scope, v)
         if r < 0.78:
@@ -146,6 +149,40 @@ class FGen:
         q = rng.choice(["exists", "exists", "forall"])
         op = rng.choice(["=", ">", "<", ">="])
         return ("int_q", q, n, f"({op} (str.to.int {n}) {rng.randint(0, 5)})")
+
+    def bool_smt(self, scope):
+        """one SMT atom whose top operator combines Boolean sub-terms: equivalence (= B B), xor, =>, distinct, ite. The rewrites
+        that push negations into SMT terms (z3_push_in_negations, SMTFormula negation) meet these only here."""
+        rng = self.rng
+        vs, used = list(scope), set()
+
+        def simple():
+            v = rng.choice(vs)
+            used.add(v)
+            if rng.random() < 0.6:
+                lit = self.sample_str(scope[v])
+                if re.search(r'["\\]', lit) or len(lit) > 12:
+                    lit = "x"
+                return f'(= {v} "{_q(lit)}")'
+            return f"({rng.choice(['>', '<', '=', '>=', '<='])} (str.len {v}) {rng.randint(0, 4)})"
+
+        def term(d):
+            x = rng.random()
+            if d <= 0 or x < 0.25:
+                return simple()
+            if x < 0.55:
+                return f"(= {term(d - 1)} {term(d - 1)})"
+            if x < 0.68:
+                return f"(xor {term(d - 1)} {term(d - 1)})"
+            if x < 0.8:
+                return f"(=> {term(d - 1)} {term(d - 1)})"
+            if x < 0.9:
+                return f"(distinct {term(d - 1)} {term(d - 1)})"
+            return f"(ite {term(d - 1)} {term(d - 1)} {term(d - 1)})"
+
+        op = rng.choice(["=", "=", "=", "xor", "=>", "distinct", "ite"])
+        args = [term(1) for _ in range(3 if op == "ite" else 2)]
+        return ("smt", f"({op} {' '.join(args)})", sorted(used))
 
     def rich_smt(self, scope, v):
         rng = self.rng
